@@ -117,6 +117,31 @@ var kinds = map[string]kindDef{
 		return pick(v, enctypes.E4{}, enctypes.E4{Ha: 11, Hb: "h", E3: enctypes.E3{Ga: 5, Gb: 6, Gc: true, Gd: 2.5, Ge: 9}, Hz: true},
 			enctypes.E4{Ha: 11, E3: enctypes.E3{Gb: 6, Gd: 2.5}})
 	}},
+	// multi-level pointer embedding: z = outer nil, e = outer set / inner nil, n = all set
+	"*P2": {typ: reflect.TypeOf((*enctypes.P2)(nil)), emb: true, val: func(v string) any {
+		return pick(v, (*enctypes.P2)(nil), &enctypes.P2{P3: &enctypes.P3{Pa: 5, Pb: "p"}, Ma: 6}, &enctypes.P2{Ma: 6})
+	}},
+	"*Q2": {typ: reflect.TypeOf((*enctypes.Q2)(nil)), emb: true, val: func(v string) any {
+		return pick(v, (*enctypes.Q2)(nil), &enctypes.Q2{Q3: enctypes.Q3{Qb: 2, P3: &enctypes.P3{Pa: 5, Pb: "p"}}, Qa: 1}, &enctypes.Q2{Q3: enctypes.Q3{Qb: 2}, Qa: 1})
+	}},
+	"R1": {typ: reflect.TypeOf(enctypes.R1{}), emb: true, val: func(v string) any {
+		return pick(v, enctypes.R1{Ra: 1}, enctypes.R1{Ra: 1, P2: &enctypes.P2{P3: &enctypes.P3{Pa: 5, Pb: "p"}, Ma: 6}}, enctypes.R1{Ra: 1, P2: &enctypes.P2{Ma: 6}})
+	}},
+	// byte arrays and named byte types: only a []byte (named or not) follows BytesAs, an array of bytes is an array of numbers
+	"[0]uint8": {typ: reflect.TypeOf([0]byte{}), val: func(v string) any { return [0]byte{} }},
+	"[1]uint8": {typ: reflect.TypeOf([1]byte{}), val: func(v string) any { return pick(v, [1]byte{}, [1]byte{7}, [1]byte{7}) }},
+	"[4]uint8": {typ: reflect.TypeOf([4]byte{}), val: func(v string) any { return pick(v, [4]byte{}, [4]byte{104, 105, 33, 0}, [4]byte{1, 2, 3, 4}) }},
+	"BA4":      {typ: reflect.TypeOf(enctypes.BA4{}), val: func(v string) any { return pick(v, enctypes.BA4{}, enctypes.BA4{104, 105, 33, 0}, enctypes.BA4{1, 2, 3, 4}) }},
+	"BS":       {typ: reflect.TypeOf(enctypes.BS(nil)), val: func(v string) any { return pick(v, enctypes.BS(nil), enctypes.BS("hi!"), enctypes.BS{}) }},
+	"[][4]uint8": {typ: reflect.TypeOf([][4]byte(nil)), val: func(v string) any {
+		return pick(v, [][4]byte(nil), [][4]byte{{104, 105, 33, 0}, {}}, [][4]byte{})
+	}},
+	"[]BS": {typ: reflect.TypeOf([]enctypes.BS(nil)), val: func(v string) any {
+		return pick(v, []enctypes.BS(nil), []enctypes.BS{enctypes.BS("hi!"), nil, {}}, []enctypes.BS{})
+	}},
+	"map[string][4]uint8": {typ: reflect.TypeOf(map[string][4]byte(nil)), val: func(v string) any {
+		return pick(v, map[string][4]byte(nil), map[string][4]byte{"k": {104, 105, 33, 0}, "z": {}}, map[string][4]byte{})
+	}},
 	// float32 values that are not dyadic: the shortest float32 text (1.1) differs from the float64 expansion (1.100000023841858)
 	"float32":  {typ: reflect.TypeOf(float32(0)), val: func(v string) any { return pick(v, float32(0), float32(1.1), float32(-0.3)) }},
 	"*float32": {typ: reflect.TypeOf((*float32)(nil)), val: func(v string) any { return pick(v, (*float32)(nil), f32p(98.6), f32p(0)) }},
